@@ -11,6 +11,7 @@ from typing import TypeVar
 from typing import assert_never
 from uuid import UUID
 
+from kio.schema.errors import ErrorCode
 from kio.serial._introspect import EntityField
 from kio.serial._introspect import EntityTupleField
 from kio.serial._introspect import PrimitiveField
@@ -54,6 +55,7 @@ primitive_implicit_defaults: Final[Mapping[type, object]] = MappingProxyType(
         str: "",
         bytes: b"",
         bool: False,
+        ErrorCode: ErrorCode.none,
     }
 )
 
